@@ -48,6 +48,8 @@ UNUSUAL = [
     'FROM method_declaration AS md WHERE md.getName() == "' + "x" * 5000 + '" SELECT md',
     'FROM method_declaration AS md WHERE ' + "(" * 300 + '1 == 1' + ")" * 300 + ' SELECT md',
     'FROM method_declaration AS md WHERE ' + "!" * 400 + '(1 == 1) SELECT md',
+    # parentheses that are never closed (quadratic time in ANTLR's error recovery, then a diagnostic)
+    'FROM method_declaration AS md WHERE ' + "(" * 1500, 'FROM WHERE***********\x00' + "(" * 1200,
     '', ' ', 'SELECT', 'FROM', 'FROM a AS b SELECT', ':quit', '\x00', '"', '"\\', "FROM a AS b WHERE \"unterminated SELECT b",
 ]
 
